@@ -2637,6 +2637,474 @@ def handleUn : List String → Option String
   | "spec" :: rest => withUnDoc specAnswerUn specAnswerUnNon rest
   | rest => withUnDoc answerUn answerUnNon rest
 
+/-! ## stage 22: the WIDER class of quoted contents (`gqfragB`, `guqfragB`): the documents of `nqgen` / `nqenum` and of
+    `ugen` / the `uqfamilies` indices NOT made clean (digits, `-`, `+`, `*` inside text, `***` thematic breaks,
+    `*x*` / `**x**` emphasis), inside `k + 1` nested block quotes -/
+
+def gqAnswer (k : Nat) (d : KDoc) : String :=
+  if gqfragB d then s!"{hexOfBytes (spellNQ k d)} {hexOfBytes (expectedNQ k d)}" else "skip"
+
+def gqModelAnswer (k : Nat) (d : KDoc) : String :=
+  if !gqfragB d then "skip" else
+  match GM.Convert.convertCore [] ropts (spellNQ k d) with
+  | .ok h => if h == expectedNQ k d then "ok" else s!"fail:model-differs {hexOfBytes h}"
+  | .error e => s!"fail:model-differs {e.str}"
+
+def gqSpecAnswer (k : Nat) (d : KDoc) : String :=
+  if !gqfragB d then "skip" else
+  let e := nqembed k d
+  if expectedNQ k d != expected e then s!"fail:spec-expected {hexOfBytes (expected e)}"
+  else if !wellFormed e then "fail:spec-wellformed"
+  else "ok"
+
+/-- `gqgen` / `gqenum`: the indices and `k` of `nqgen` / `nqenum`, the documents without `qcleanDoc` -/
+def gqWithDoc (f : Nat → KDoc → String) : List String → Option String
+  | ["gqgen", s, z] => some (nat s fun seed => nat z fun size =>
+      f (if seed % 16 == 0 then 0 else seed % 3 + 1) (genKDoc seed size))
+  | ["gqenum", i] => some (nat i fun i =>
+      if i < 3 * countQ then
+        match enumKIn qfamilies (i / 3) with
+        | none => "end"
+        | some d => f (i % 3 + 1) d
+      else if i < countNQ then
+        match enumKIn qfamilies (16 * (i - 3 * countQ)) with
+        | none => "end"
+        | some d => f 0 d
+      else "end")
+  | _ => none
+
+/-- `gqcount`, `gqgen` / `gqenum` and their `model` / `spec` variants -/
+def gqHandle : List String → Option String
+  | ["gqcount"] => some (toString countNQ)
+  | "model" :: rest => gqWithDoc gqModelAnswer rest
+  | "spec" :: rest => gqWithDoc gqSpecAnswer rest
+  | rest => gqWithDoc gqAnswer rest
+
+def gqspellU (k : Nat) (d : UDocS) : Bytes := quoteLinesN (k + 1) (spellU d)
+
+def gqexpectedU (k : Nat) (d : UDocS) : Bytes := wrapQ (k + 1) (expectedU d)
+
+/-- the spec-model document: `k + 1` nested block quotes around the stage-13 blocks -/
+def gqUEmbed (k : Nat) (d : UDocS) : Doc := { blocks := nestQuote (k + 1) (uembed d).blocks }
+
+def gqUAnswer (k : Nat) (d : UDocS) : String :=
+  if guqfragB d then s!"{hexOfBytes (gqspellU k d)} {hexOfBytes (gqexpectedU k d)}" else "skip"
+
+def gqUModelAnswer (k : Nat) (d : UDocS) : String :=
+  if !guqfragB d then "skip" else
+  match GM.Convert.convertCore [] ropts (gqspellU k d) with
+  | .ok h => if h == gqexpectedU k d then "ok" else s!"fail:model-differs {hexOfBytes h}"
+  | .error e => s!"fail:model-differs {e.str}"
+
+def gqUSpecAnswer (k : Nat) (d : UDocS) : String :=
+  if !guqfragB d then "skip" else
+  let e := gqUEmbed k d
+  if gqexpectedU k d != expected e then s!"fail:spec-expected {hexOfBytes (expected e)}"
+  else if !wellFormed e then "fail:spec-wellformed"
+  else "ok"
+
+def gqUCount : Nat := 3 * countUQ
+
+/-- `guqgen <seed> <size>`: the document of `ugen <seed> <size>` (not made clean) with `k = seed % 3`;
+    `guqenum <i>`: the document of index `i / 3` of `uqfamilies` (not made clean) with `k = i % 3` -/
+def gqUWithDoc (f : Nat → UDocS → String) : List String → Option String
+  | ["guqgen", s, z] => some (nat s fun seed => nat z fun size => f (seed % 3) (genUDoc seed size))
+  | ["guqenum", i] => some (nat i fun i =>
+      if i < gqUCount then
+        match enumUIn uqfamilies (i / 3) with
+        | none => "end"
+        | some d => f (i % 3) d
+      else "end")
+  | _ => none
+
+/-- `guqcount`, `guqgen` / `guqenum` and their `model` / `spec` variants -/
+def gqUHandle : List String → Option String
+  | ["guqcount"] => some (toString gqUCount)
+  | "model" :: rest => gqUWithDoc gqUModelAnswer rest
+  | "spec" :: rest => gqUWithDoc gqUSpecAnswer rest
+  | rest => gqUWithDoc gqUAnswer rest
+
+/-! ## stage 21: the union (stage 13 with indented code) whose rich lines contain ALL inline atoms (`F21Doc`) -/
+
+/-- a tag name: a letter and 0..5 letters and digits -/
+def genTagName21 : G Bytes := do
+  let c ← pickL letters
+  let r ← genInfo (← below 6)
+  return c :: r
+
+/-- one of the ten kinds of atoms that are not text, each 10 % -/
+def genFAtom21 : G FAtomS := do
+  let r ← below 10
+  let c ← genInfo (1 + (← below 6))
+  match r with
+  | 0 => return .code c
+  | 1 => return .em c
+  | 2 => return .strong c
+  | 3 => return .uem c
+  | 4 => return .ustrong c
+  | 5 => return .link c (← genDest16 (1 + (← below 8)))
+  | 6 => return .img c (← genDest16 (1 + (← below 8)))
+  | 7 => return .auto (← genScheme18) (← genRest18 (1 + (← below 8)))
+  | 8 => return .otag (← genTagName21)
+  | _ => return .ctag (← genTagName21)
+
+def genFAtoms21 : Nat → G (List FAtomS)
+  | 0 => return []
+  | n + 1 => do
+    let a ← genFAtom21
+    let rest ← genFAtoms21 n
+    return a :: rest
+
+/-- the text behind atom `c` and in front of the atom `next` (`none`: the end of the line): `genEdgeText`, made
+    non-empty, with a `genUnSep` character towards an underscore atom where the neighbour condition asks for one; the
+    last text of a line ends with a literal letter or digit -/
+def genFText21 (c : FAtomS) (next : Option FAtomS) : G (List TChar) := do
+  let nextUnder := match next with | some a => a.isUnder | none => false
+  let t ← genEdgeText true next.isSome
+  let t ← if t.isEmpty then
+      (if c.isUnder || nextUnder then (do return [← genUnSep]) else (do return [lit (← pickL (32 :: alnums))]))
+    else pure t
+  let t ← match t.head? with
+    | some a => if c.isUnder && !unafterOK a then (do return (← genUnSep) :: t) else pure t
+    | none => pure t
+  let t ← match t.getLast? with
+    | some z => if nextUnder && !unbeforeOK z then (do return t ++ [← genUnSep]) else pure t
+    | none => pure t
+  if next.isNone then return t ++ [lit (← pickL alnums)] else return t
+
+def genFTail21 : List FAtomS → G (List FAtomS)
+  | [] => return []
+  | c :: more => do
+    let t ← genFText21 c more.head?
+    let rest ← genFTail21 more
+    return c :: .txt t :: rest
+
+/-- a rich line: plain text 25 %, else 1..4 atoms that are not text between runs of text -/
+def genFRich21 : G (List FAtomS) := do
+  if (← chance 25) then
+    let l ← genLine
+    return [.txt l]
+  else
+    let as ← genFAtoms21 (1 + (← below 4))
+    let a := lit (← pickL letters)
+    let t ← genEdgeText false true
+    let firstUnder := match as.head? with | some x => x.isUnder | none => false
+    let t0 := a :: t
+    let t0 ← match t0.getLast? with
+      | some z => if firstUnder && !unbeforeOK z then (do return t0 ++ [← genUnSep]) else pure t0
+      | none => pure t0
+    let rest ← genFTail21 as
+    return .txt t0 :: rest
+
+def genFLines21 : Nat → G (List FLineS21)
+  | 0 => return []
+  | n + 1 => do
+    let l ← genFRich21
+    let hard ← chance 40
+    let rest ← genFLines21 n
+    return { atoms := l, hard := hard && n != 0 } :: rest
+
+/-- as `genUBlock` -/
+def genFBlock21 : G FBlockS21 := do
+  let r ← below 100
+  if r < 45 then
+    let n ← below 4
+    let ls ← genFLines21 (1 + n)
+    return .para ls
+  else if r < 70 then
+    let level ← below 6
+    let l ← genFRich21
+    return .heading (level + 1) l
+  else if r < 80 then
+    let c ← below 3
+    let n ← below 5
+    return .thematic c n
+  else
+    let tilde ← chance 50
+    let n ← below 4
+    let info ← if (← chance 40) then pure [] else genInfo (1 + (← below 6))
+    let lines ← genCodeLines tilde (← below 6)
+    return .fcode tilde n info lines
+
+/-- as `genUItems` -/
+def genFItems21 : Option FBlockS21 → Nat → G (List F21Item)
+  | _, 0 => return []
+  | prev, n + 1 => do
+    let prevIc := match prev with | some a => a.isIc | none => false
+    let ic ← chance 15
+    let b ← if ic && !prevIc then do pure (FBlockS21.icode (← genIcLines (1 + (← below 4)))) else genFBlock21
+    let sep ← match prev with
+      | none => below 3
+      | some a => do
+        let abut ← chance 50
+        let k ← below 3
+        pure (if abut && f21abutOK a b then 0 else 1 + k)
+    let rest ← genFItems21 (some b) n
+    return { sep := sep, block := b } :: rest
+
+def genF21DocM (size : Nat) : G F21Doc := do
+  let n ← below (max size 1)
+  let items ← genFItems21 none (n + 1)
+  let trail ← below 3
+  return { items := items, trail := trail }
+
+def genF21Doc (seed size : Nat) : F21Doc :=
+  (genF21DocM size |>.run { s := UInt64.ofNat (seed * 2654435761 + size + 212121) }).1
+
+/-- a stage-13 document as a stage-21 document -/
+def fatomOfE21 : EAtomS → FAtomS
+  | .txt cs => .txt cs
+  | .code c => .code c
+  | .em c => .em c
+  | .strong c => .strong c
+
+def fblockOfU21 : UBlockS → FBlockS21
+  | .para lines => .para (lines.map fun x => { atoms := x.atoms.map fatomOfE21, hard := x.hard })
+  | .heading level text => .heading level (text.map fatomOfE21)
+  | .thematic c n => .thematic c n
+  | .fcode tilde n info lines => .fcode tilde n info lines
+  | .icode lines => .icode lines
+
+def f21docOfU (d : UDocS) : F21Doc :=
+  { items := d.items.map fun it => { sep := it.sep, block := fblockOfU21 it.block }, trail := d.trail }
+
+/-- the ten kinds of atoms that are not text, with fixed contents -/
+def f21kindAtom (k : Nat) : FAtomS :=
+  match k with
+  | 0 => .code (strBytes "c")
+  | 1 => .em (strBytes "e")
+  | 2 => .strong (strBytes "s")
+  | 3 => .uem (strBytes "u")
+  | 4 => .ustrong (strBytes "v")
+  | 5 => .link (strBytes "t") (strBytes "/d")
+  | 6 => .img (strBytes "i") (strBytes "j/k")
+  | 7 => .auto (strBytes "ab") (strBytes "r.s/q")
+  | 8 => .otag (strBytes "b")
+  | _ => .ctag (strBytes "b")
+
+/-- the texts between the two atoms of a pair: one character — a space, a letter, a full stop, an escaped `!`, an
+    escaped `*`, an escaped `_`, `&lt;` (written as a reference), an escaped backslash -/
+def f21sepPool : List (List TChar) :=
+  [[lit 32], [lit 120], [lit 46], [⟨33, .bs⟩], [⟨42, .bs⟩], [⟨95, .bs⟩], [⟨60, .named⟩], [⟨92, .bs⟩]]
+
+/-- (f-a) all ordered pairs of the ten atom kinds in one line, one text character (8 choices) between them, the outer
+    texts touching the atoms (`a` … `b`) or separated from them by a space, in a paragraph and in a heading; the lines
+    that violate the underscore neighbour condition are outside the fragment (`skip`) -/
+def f21famPairs (i : Nat) : F21Doc :=
+  let inHead := i % 2 == 1
+  let loose := i / 2 % 2 == 1
+  let sep := f21sepPool.getD (i / 4 % 8) [lit 32]
+  let y := f21kindAtom (i / 32 % 10)
+  let x := f21kindAtom (i / 320 % 10)
+  let l : List FAtomS :=
+    [.txt (if loose then [lit 97, lit 32] else [lit 97]), x, .txt sep, y, .txt (if loose then [lit 32, lit 98] else [lit 98])]
+  { items := [{ block := if inHead then .heading 2 l else .para [{ atoms := l }] }] }
+
+def f21countPairs : Nat := 10 * 10 * 8 * 2 * 2
+
+/-- (f-b) one atom of every kind between touching text `aXb`, and between spaces, in a paragraph (with a hard break
+    behind the line and a second line) and in a heading -/
+def f21famOne (i : Nat) : F21Doc :=
+  let inHead := i % 2 == 1
+  let loose := i / 2 % 2 == 1
+  let x := f21kindAtom (i / 4 % 10)
+  let l : List FAtomS :=
+    [.txt (if loose then [lit 97, lit 32] else [lit 97]), x, .txt (if loose then [lit 32, lit 98] else [lit 98])]
+  { items := [{ block := if inHead then .heading 1 l
+      else .para [{ atoms := l, hard := true }, { atoms := [.txt [lit 122]] }] }], trail := i / 40 }
+
+def f21countOne : Nat := 10 * 2 * 2 * 2
+
+/-- a line with all ten kinds of atoms, single spaces between them -/
+def f21allLine : List FAtomS :=
+  .txt (lits "a ") :: ((List.range 10).flatMap fun k => [f21kindAtom k, FAtomS.txt (lits (if k == 9 then " z" else " "))])
+
+/-- (f-c) fixed documents: the line with all ten kinds as a paragraph, as a heading, twice in one paragraph with a hard
+    break between; the same kinds of bytes inside an indented code block behind a rich paragraph; a rich heading
+    directly behind a rich paragraph and a fence directly behind that -/
+def f21fixed : List F21Doc :=
+  [ { items := [{ block := .para [{ atoms := f21allLine }] }] },
+    { items := [{ block := .heading 3 f21allLine }] },
+    { items := [{ block := .para [{ atoms := f21allLine, hard := true }, { atoms := f21allLine }] }] },
+    { items := [{ block := .para [{ atoms := [.txt (lits "a "), .uem (strBytes "x"), .txt (lits " "), .otag (strBytes "b"), .txt (lits "c")] }] },
+                { sep := 1, block := .icode [strBytes "_x_ <b> [t](d) ![i](j) <ab:c> `c`"] }] },
+    { items := [{ block := .para [{ atoms := [.txt (lits "p"), .link (strBytes "t") (strBytes "d"), .txt (lits "q")] }] },
+                { block := .heading 2 [.txt (lits "h"), .img (strBytes "i") (strBytes "j"), .txt (lits "k")] },
+                { block := .fcode false 0 [] [strBytes "<ab:c>"] },
+                { block := .icode [strBytes "x"] }] } ]
+
+def countF21 : Nat := f21countPairs + f21countOne + 2 * f21fixed.length + countU
+
+def enumF21 (i : Nat) : Option F21Doc :=
+  if i < f21countPairs then some (f21famPairs i)
+  else if i < f21countPairs + f21countOne then some (f21famOne (i - f21countPairs))
+  else if i < f21countPairs + f21countOne + 2 * f21fixed.length then
+    let j := i - f21countPairs - f21countOne
+    (f21fixed[j / 2]?).map fun d => { d with trail := j % 2 }
+  else (enumU (i - f21countPairs - f21countOne - 2 * f21fixed.length)).map f21docOfU
+
+def answerF21 (d : F21Doc) : String :=
+  if f21fragB d then s!"{hexOfBytes (spellF21 d)} {hexOfBytes (expectedF21 d)}" else "skip"
+
+def modelAnswerF21 (d : F21Doc) : String :=
+  if !f21fragB d then "skip" else
+  match GM.Convert.convertCore [] ropts (spellF21 d) with
+  | .ok h => if h == expectedF21 d then "ok" else s!"fail:model-differs {hexOfBytes h}"
+  | .error e => s!"fail:model-differs {e.str}"
+
+def specAnswerF21 (d : F21Doc) : String :=
+  if !f21fragB d then "skip" else
+  let e := f21embed d
+  if expectedF21 d != expected e then s!"fail:spec-expected {hexOfBytes (expected e)}"
+  else if f21noExtraBlanks d && !d.items.isEmpty && spellF21 d != spell e then s!"fail:spec-spell {hexOfBytes (spell e)}"
+  else if !wellFormed e then "fail:spec-wellformed"
+  else "ok"
+
+def f21noTrail (d : F21Doc) : F21Doc := { d with trail := 0 }
+
+def answerF21E (d : F21Doc) : String :=
+  if f21fragEB d then s!"{hexOfBytes (spellF21E d)} {hexOfBytes (expectedF21 d)}" else "skip"
+
+def modelAnswerF21E (d : F21Doc) : String :=
+  if !f21fragEB d then "skip" else
+  match GM.Convert.convertCore [] ropts (spellF21E d) with
+  | .ok h => if h == expectedF21 d then "ok" else s!"fail:model-differs {hexOfBytes h}"
+  | .error e => s!"fail:model-differs {e.str}"
+
+def specAnswerF21E (d : F21Doc) : String :=
+  if !f21fragEB d then "skip" else
+  let e := f21embedE d
+  if expectedF21 d != expected e then s!"fail:spec-expected {hexOfBytes (expected e)}"
+  else if f21noExtraBlanks d && spellF21E d != spell e then s!"fail:spec-spell {hexOfBytes (spell e)}"
+  else if !wellFormed e then "fail:spec-wellformed"
+  else "ok"
+
+def withF21Doc (k ke : F21Doc → String) : List String → Option String
+  | ["f21gen", s, z] => some (nat s fun seed => nat z fun size => k (genF21Doc seed size))
+  | ["f21enum", i] => some (nat i fun i =>
+      match enumF21 i with
+      | none => "end"
+      | some d => k d)
+  | ["f21egen", s, z] => some (nat s fun seed => nat z fun size => ke (f21noTrail (genF21Doc seed size)))
+  | ["f21eenum", i] => some (nat i fun i =>
+      match enumF21 i with
+      | none => "end"
+      | some d => ke (f21noTrail d))
+  | _ => none
+
+/-- `f21count` / `f21ecount`, `f21gen` / `f21enum` / `f21egen` / `f21eenum` and their `model` / `spec` variants -/
+def handleF21 : List String → Option String
+  | ["f21count"] => some (toString countF21)
+  | ["f21ecount"] => some (toString countF21)
+  | "model" :: rest => withF21Doc modelAnswerF21 modelAnswerF21E rest
+  | "spec" :: rest => withF21Doc specAnswerF21 specAnswerF21E rest
+  | rest => withF21Doc answerF21 answerF21E rest
+
+/-- the same documents judged WITHOUT the restriction `f21restrS` (`f21fragWB`): ops `f21wgen` / `f21wenum` -/
+def answerF21W (d : F21Doc) : String :=
+  if f21fragWB d then s!"{hexOfBytes (spellF21 d)} {hexOfBytes (expectedF21 d)}" else "skip"
+
+def modelAnswerF21W (d : F21Doc) : String :=
+  if !f21fragWB d then "skip" else
+  match GM.Convert.convertCore [] ropts (spellF21 d) with
+  | .ok h => if h == expectedF21 d then "ok" else s!"fail:model-differs {hexOfBytes h}"
+  | .error e => s!"fail:model-differs {e.str}"
+
+def specAnswerF21W (d : F21Doc) : String :=
+  if !f21fragWB d then "skip" else
+  let e := f21embed d
+  if expectedF21 d != expected e then s!"fail:spec-expected {hexOfBytes (expected e)}"
+  else if f21noExtraBlanks d && !d.items.isEmpty && spellF21 d != spell e then s!"fail:spec-spell {hexOfBytes (spell e)}"
+  else if !wellFormed e then "fail:spec-wellformed"
+  else "ok"
+
+def withF21WDoc (k : F21Doc → String) : List String → Option String
+  | ["f21wgen", s, z] => some (nat s fun seed => nat z fun size => k (genF21Doc seed size))
+  | ["f21wenum", i] => some (nat i fun i =>
+      match enumF21 i with
+      | none => "end"
+      | some d => k d)
+  | _ => none
+
+def handleF21W : List String → Option String
+  | ["f21wcount"] => some (toString countF21)
+  | "model" :: rest => withF21WDoc modelAnswerF21W rest
+  | "spec" :: rest => withF21WDoc specAnswerF21W rest
+  | rest => withF21WDoc answerF21W rest
+
+/-! ## stage 23: a stage-21 document inside `k + 1` (1..3) nested block quotes, the wider class (`gf21qfragB`): the
+    documents of `f21gen` / `f21enum` with the link / image atoms replaced, `[` / tab / CR respelled, no indented code -/
+
+/-- a character whose source bytes are all `gqcleanByte`: as it is, else its named reference (`&lsqb;`), else `x` -/
+def gqF21T (t : TChar) : TChar :=
+  if (spellChar t).all gqcleanByte then t
+  else if (spellChar ⟨t.c, .named⟩).all gqcleanByte then ⟨t.c, .named⟩
+  else lit 120
+
+def gqF21Bytes (l : Bytes) : Bytes := l.map fun c => if gqcleanByte c then c else 120
+
+/-- `[t](d)` becomes the code span of `t`, `![a](d)` becomes `*a*`; the other atoms keep their kind -/
+def gqF21Atom : FAtomS → FAtomS
+  | .txt cs => .txt (cs.map gqF21T)
+  | .code c => .code (gqF21Bytes c)
+  | .link t _ => .code (gqF21Bytes t)
+  | .img a _ => .em (gqF21Bytes a)
+  | a => a
+
+def gqF21Block : FBlockS21 → FBlockS21
+  | .para lines => .para (lines.map fun x => { x with atoms := x.atoms.map gqF21Atom })
+  | .heading level text => .heading level (text.map gqF21Atom)
+  | .thematic c n => .thematic c n
+  | .fcode tilde n info lines => .fcode tilde n (gqF21Bytes info) (lines.map gqF21Bytes)
+  | .icode lines => .fcode true 0 [] (lines.map gqF21Bytes)   -- no indented code block inside the quote
+
+def gqF21Clean (d : F21Doc) : F21Doc :=
+  { d with items := d.items.map fun it => { it with block := gqF21Block it.block } }
+
+def gqF21Spell (k : Nat) (d : F21Doc) : Bytes := quoteLinesN (k + 1) (spellF21 d)
+
+def gqF21Expected (k : Nat) (d : F21Doc) : Bytes := wrapQ (k + 1) (expectedF21 d)
+
+/-- the spec-model document: `k + 1` nested block quotes around the stage-21 blocks -/
+def gqF21Embed (k : Nat) (d : F21Doc) : Doc := { blocks := nestQuote (k + 1) (f21embed d).blocks }
+
+def gqF21Answer (k : Nat) (d : F21Doc) : String :=
+  if gf21qfragB d then s!"{hexOfBytes (gqF21Spell k d)} {hexOfBytes (gqF21Expected k d)}" else "skip"
+
+def gqF21ModelAnswer (k : Nat) (d : F21Doc) : String :=
+  if !gf21qfragB d then "skip" else
+  match GM.Convert.convertCore [] ropts (gqF21Spell k d) with
+  | .ok h => if h == gqF21Expected k d then "ok" else s!"fail:model-differs {hexOfBytes h}"
+  | .error e => s!"fail:model-differs {e.str}"
+
+def gqF21SpecAnswer (k : Nat) (d : F21Doc) : String :=
+  if !gf21qfragB d then "skip" else
+  let e := gqF21Embed k d
+  if gqF21Expected k d != expected e then s!"fail:spec-expected {hexOfBytes (expected e)}"
+  else if !wellFormed e then "fail:spec-wellformed"
+  else "ok"
+
+def gqF21Count : Nat := 3 * countF21
+
+/-- `gf21qgen <seed> <size>`: the document of `f21gen <seed> <size>` made clean, `k = seed % 3`;
+    `gf21qenum <i>`: the document of `f21enum (i / 3)` made clean, `k = i % 3` -/
+def gqF21WithDoc (f : Nat → F21Doc → String) : List String → Option String
+  | ["gf21qgen", s, z] => some (nat s fun seed => nat z fun size => f (seed % 3) (gqF21Clean (genF21Doc seed size)))
+  | ["gf21qenum", i] => some (nat i fun i =>
+      if i < gqF21Count then
+        match enumF21 (i / 3) with
+        | none => "end"
+        | some d => f (i % 3) (gqF21Clean d)
+      else "end")
+  | _ => none
+
+/-- `gf21qcount`, `gf21qgen` / `gf21qenum` and their `model` / `spec` variants -/
+def gqF21Handle : List String → Option String
+  | ["gf21qcount"] => some (toString gqF21Count)
+  | "model" :: rest => gqF21WithDoc gqF21ModelAnswer rest
+  | "spec" :: rest => gqF21WithDoc gqF21SpecAnswer rest
+  | rest => gqF21WithDoc gqF21Answer rest
+
 end CMFrag
 
 /-- `cmfrag gen <seed> <size>` / `cmfrag enum <i>` → `<hex spellF d> <hex expectedF d>` (`skip` outside the fragment,
@@ -2670,7 +3138,52 @@ end CMFrag
     `trail` forced to 0, written without the final line feed (`skip` when not `ifragEB`): `cmfrag iegen <seed> <size>` /
     `cmfrag ieenum <i>` / `cmfrag iecount` (= `icount`), with `spellIcE`, `expectedI`, `iembedE` -/
 def handleCMFrag : List String → String
+  -- stage 23 (a stage-21 document inside 1..3 quotes, `gf21qfragB`): Driver.CMFrag.gqF21Handle
+  | ["gf21qcount"] => (CMFrag.gqF21Handle ["gf21qcount"]).getD bad
+  | ["gf21qgen", s, z] => (CMFrag.gqF21Handle ["gf21qgen", s, z]).getD bad
+  | ["gf21qenum", i] => (CMFrag.gqF21Handle ["gf21qenum", i]).getD bad
+  | ["model", "gf21qgen", s, z] => (CMFrag.gqF21Handle ["model", "gf21qgen", s, z]).getD bad
+  | ["model", "gf21qenum", i] => (CMFrag.gqF21Handle ["model", "gf21qenum", i]).getD bad
+  | ["spec", "gf21qgen", s, z] => (CMFrag.gqF21Handle ["spec", "gf21qgen", s, z]).getD bad
+  | ["spec", "gf21qenum", i] => (CMFrag.gqF21Handle ["spec", "gf21qenum", i]).getD bad
+  -- stage 22 (the wider class of quoted contents, `gqfragB` / `guqfragB`): Driver.CMFrag.gqHandle / gqUHandle
+  | ["gqcount"] => (CMFrag.gqHandle ["gqcount"]).getD bad
+  | ["gqgen", s, z] => (CMFrag.gqHandle ["gqgen", s, z]).getD bad
+  | ["gqenum", i] => (CMFrag.gqHandle ["gqenum", i]).getD bad
+  | ["model", "gqgen", s, z] => (CMFrag.gqHandle ["model", "gqgen", s, z]).getD bad
+  | ["model", "gqenum", i] => (CMFrag.gqHandle ["model", "gqenum", i]).getD bad
+  | ["spec", "gqgen", s, z] => (CMFrag.gqHandle ["spec", "gqgen", s, z]).getD bad
+  | ["spec", "gqenum", i] => (CMFrag.gqHandle ["spec", "gqenum", i]).getD bad
+  | ["guqcount"] => (CMFrag.gqUHandle ["guqcount"]).getD bad
+  | ["guqgen", s, z] => (CMFrag.gqUHandle ["guqgen", s, z]).getD bad
+  | ["guqenum", i] => (CMFrag.gqUHandle ["guqenum", i]).getD bad
+  | ["model", "guqgen", s, z] => (CMFrag.gqUHandle ["model", "guqgen", s, z]).getD bad
+  | ["model", "guqenum", i] => (CMFrag.gqUHandle ["model", "guqenum", i]).getD bad
+  | ["spec", "guqgen", s, z] => (CMFrag.gqUHandle ["spec", "guqgen", s, z]).getD bad
+  | ["spec", "guqenum", i] => (CMFrag.gqUHandle ["spec", "guqenum", i]).getD bad
   -- stage 20 (`UnDoc`: paragraphs whose lines contain `_x_` / `__x__`; `unnon`: the non-members that stay literal): Driver.CMFrag.handleUn
+  -- stage 21 (`F21Doc`: the union with all inline atoms; `f21w…`: without the restriction `f21restrS`): Driver.CMFrag.handleF21
+  | ["f21count"] => (CMFrag.handleF21 ["f21count"]).getD bad
+  | ["f21ecount"] => (CMFrag.handleF21 ["f21ecount"]).getD bad
+  | ["f21wcount"] => (CMFrag.handleF21W ["f21wcount"]).getD bad
+  | ["f21gen", s, z] => (CMFrag.handleF21 ["f21gen", s, z]).getD bad
+  | ["model", "f21gen", s, z] => (CMFrag.handleF21 ["model", "f21gen", s, z]).getD bad
+  | ["spec", "f21gen", s, z] => (CMFrag.handleF21 ["spec", "f21gen", s, z]).getD bad
+  | ["f21egen", s, z] => (CMFrag.handleF21 ["f21egen", s, z]).getD bad
+  | ["model", "f21egen", s, z] => (CMFrag.handleF21 ["model", "f21egen", s, z]).getD bad
+  | ["spec", "f21egen", s, z] => (CMFrag.handleF21 ["spec", "f21egen", s, z]).getD bad
+  | ["f21wgen", s, z] => (CMFrag.handleF21W ["f21wgen", s, z]).getD bad
+  | ["model", "f21wgen", s, z] => (CMFrag.handleF21W ["model", "f21wgen", s, z]).getD bad
+  | ["spec", "f21wgen", s, z] => (CMFrag.handleF21W ["spec", "f21wgen", s, z]).getD bad
+  | ["f21enum", i] => (CMFrag.handleF21 ["f21enum", i]).getD bad
+  | ["model", "f21enum", i] => (CMFrag.handleF21 ["model", "f21enum", i]).getD bad
+  | ["spec", "f21enum", i] => (CMFrag.handleF21 ["spec", "f21enum", i]).getD bad
+  | ["f21eenum", i] => (CMFrag.handleF21 ["f21eenum", i]).getD bad
+  | ["model", "f21eenum", i] => (CMFrag.handleF21 ["model", "f21eenum", i]).getD bad
+  | ["spec", "f21eenum", i] => (CMFrag.handleF21 ["spec", "f21eenum", i]).getD bad
+  | ["f21wenum", i] => (CMFrag.handleF21W ["f21wenum", i]).getD bad
+  | ["model", "f21wenum", i] => (CMFrag.handleF21W ["model", "f21wenum", i]).getD bad
+  | ["spec", "f21wenum", i] => (CMFrag.handleF21W ["spec", "f21wenum", i]).getD bad
   | ["uncount"] => (CMFrag.handleUn ["uncount"]).getD bad
   | ["unnoncount"] => (CMFrag.handleUn ["unnoncount"]).getD bad
   | ["ungen", s, z] => (CMFrag.handleUn ["ungen", s, z]).getD bad
